@@ -179,6 +179,7 @@ def handle (req : Json) : Except String Json := do
     match ← getStr p "ptype" with
     | "dynamic" => pure PType.dynamic
     | "number" => pure PType.number
+    | "plain" => pure PType.dynamic   -- a non-Dynamic Parameter holding a number behaves like a Dynamic one holding it
     | t => throw s!"unknown ptype {t}"
   let defaults ← params.toList.mapM fun p => do parseSrc (← p.getObjVal? "default")
   let ops ← (← getArr case "ops").toList.mapM parseOp
